@@ -60,7 +60,7 @@ func vhC03(engine int, breakParams bool) {
 	// what the callback must have been asked, given its own answers
 	auths := vhAuths()
 	k := 0
-	approved := false
+	approved := len(exp.sec) == 0 // a route without any effective security is served without asking
 	lastStatus, lastCustom := 0, false
 	for _, alt := range exp.sec {
 		ok := true
@@ -116,6 +116,20 @@ func vhC03(engine int, breakParams bool) {
 		}
 	}
 }
+
+// the same on the project without default security: a method's own @Security guards it although neither its
+// controller nor the configuration names any security, and the unsecured sibling is reached without any check
+func vhC03ND(engine int) {
+	vhProject = 1
+	vhC03(engine, false)
+	vhProject = 0
+}
+
+func vh_C03_nd_gin_Q()   { vhC03ND(0) }
+func vh_C03_nd_echo_Q()  { vhC03ND(1) }
+func vh_C03_nd_mux_Q()   { vhC03ND(2) }
+func vh_C03_nd_chi_Q()   { vhC03ND(3) }
+func vh_C03_nd_fiber_Q() { vhC03ND(4) }
 
 func vh_C03_gin_Q()   { vhC03(0, true) }
 func vh_C03_echo_Q()  { vhC03(1, true) }
